@@ -27,8 +27,10 @@ type denOpt struct {
 func c01Value(c *Ctx, code string) string {
 	r := c.Rng
 	switch code {
-	case "int", "Lint":
+	case "int", "Lint", "Fint":
 		return strconv.Itoa(r.Intn(2000) - 1000)
+	case "Fstr!":
+		return []string{"v", "two words", "é", "a=b", "x:y", "q\"uote", " lead"}[r.Intn(7)]
 	case "Mstr,str":
 		return []string{"k", "a b", "é", "key=1"}[r.Intn(4)] + ":" + []string{"v", "x:y", "", "a=b", "日本 語", "-"}[r.Intn(6)]
 	}
@@ -77,7 +79,7 @@ func denoteRun(c *Ctx, n int, scope bool) {
 	p.SubOpt = 1
 	p.MaxCmdDepth = 2
 	p.Utf = 0.3
-	p.OnlyTypes = []string{"str", "str", "int", "bool", "bool", "Lstr", "Lint", "Mstr,str"}
+	p.OnlyTypes = []string{"str", "str", "int", "bool", "bool", "Lstr", "Lint", "Mstr,str", "Fint", "Fstr!"}
 	p.OptsMask = flags.PassDoubleDash | flags.PrintErrors
 	prop := "C01"
 	if scope {
@@ -92,6 +94,26 @@ func denoteRun(c *Ctx, n int, scope bool) {
 		cs.Env = nil
 		nilCmd := ""
 		expectUnknown := ""
+		// callbacks with a default: it is delivered once when the option does not occur, never when it does
+		cbDefault := map[string]string{}
+		var addDefaults func(sd *StructDesc)
+		addDefaults = func(sd *StructDesc) {
+			for fi := range sd.Fields {
+				f := &sd.Fields[fi]
+				if f.Kind == "v" && (f.Ty == "Fint" || f.Ty == "Fstr!") && g.chance(0.5) && !scope {
+					dv := map[string]string{"Fint": "42", "Fstr!": "dflt"}[f.Ty]
+					f.Tag += " " + quoteTag("default", dv)
+					cbDefault[f.Name] = dv
+				} else if f.Sub != nil {
+					addDefaults(f.Sub)
+				}
+			}
+		}
+		for bi := range cs.Build {
+			if cs.Build[bi].Struct != nil {
+				addDefaults(cs.Build[bi].Struct)
+			}
+		}
 		if !scope && g.chance(0.06) && cs.Build[0].Struct != nil {
 			// a command declared through a nil pointer field (D20)
 			for fi := range cs.Build[0].Struct.Fields {
@@ -328,6 +350,9 @@ func denoteRun(c *Ctx, n int, scope bool) {
 				if o == nil {
 					continue
 				}
+				if d.code[0] == 'F' {
+					continue // (callbacks: judged by their runs, below)
+				}
 				want := denoteExpected(d.code, d.occ)
 				in := map[string]interface{}{"case": cs.Description, "argv": argv, "option": o.String(), "field": fn, "type": d.code, "occurrences": d.occ}
 				// the value is read from the caller's struct, not through the parser
@@ -349,6 +374,43 @@ func denoteRun(c *Ctx, n int, scope bool) {
 					in["case_file"] = c.saveCase(cr)
 				}
 				c.Check("field-holds-what-the-command-line-denotes", ok, prop+":denotation", in, fmt.Sprintf("%#v", got), fmt.Sprintf("%#v", want))
+			}
+			// callbacks: one run per occurrence, in order, with the converted argument; a default only
+			// when the option did not occur
+			ran := map[string][]string{}
+			for _, l := range obs.logs {
+				if strings.HasPrefix(l, "LOG cb ") {
+					ws := strings.Fields(l)
+					ran[ws[2]] = append(ran[ws[2]], ws[3]) // by option reference
+				}
+			}
+			for fn, o := range byField {
+				code := cr.Real.optCode(o)
+				if code != "Fint" && code != "Fstr!" {
+					continue
+				}
+				texts := []string{}
+				if d := byName[fn]; d != nil {
+					texts = d.occ
+				} else if dv, ok := cbDefault[fn]; ok {
+					texts = []string{dv}
+				}
+				var want []string
+				for _, t := range texts {
+					if code == "Fint" {
+						v, _ := strconv.Atoi(t)
+						want = append(want, "i:"+strconv.Itoa(v))
+					} else {
+						want = append(want, "s:"+hx(t))
+					}
+				}
+				got := ran[cr.Real.optRef[fn]]
+				ok := fmt.Sprint(got) == fmt.Sprint(want)
+				in := map[string]interface{}{"case": cs.Description, "argv": argv, "option": o.String(), "field": fn, "type": code, "occurrences": texts, "default": cbDefault[fn]}
+				if !ok {
+					in["case_file"] = c.saveCase(cr)
+				}
+				c.Check("callback-runs-once-per-occurrence-in-order", ok, prop+":callback", in, decodeLine(strings.Join(got, " ")), decodeLine(strings.Join(want, " ")))
 			}
 			// options that did not occur hold their zero value (nothing was stored, no defaults declared)
 			for fn, o := range byField {
